@@ -1509,9 +1509,21 @@ def check_C12(ctx):
 
 
 def check_C13(ctx):
-    std_check(ctx, [('MC_Core', 'MC_Core_small.cfg'), ('MC_Core', 'MC_Core_reap.cfg')],
-              lambda rng: gen_core_prog(rng, maxb=10, flagset=(0, 0, F_DETACH, F_PF, F_DETACH | F_PF, F_NULLID | F_DETACH),
-                                        reap=('JN', 'TJ', 'TJ', 'DT', 'DT', 'TJN')),
+    def gen(rng):
+        if rng.random() < 0.3:
+            # detach races with the end of the target: short-lived children, each detached (some try-joined) right after
+            # its creation or a few yields later, so that the request meets the finishing sequence at every stage
+            n = rng.randint(3, 9)
+            main = []; bodies = []
+            for c in range(1, n + 1):
+                main.append((OP['CR'], c, rng.choice((0, 0, F_PF)), 0))
+                main += [(OP['YD'], rng.choice((0, 1, 2, 3, 4)), 0, 0)] * rng.randint(0, 2)
+                main.append((OP['DT'], c, 0, 0) if rng.random() < 0.8 else (OP['TJ'], c, 0, 0))
+                bodies.append([(OP['YD'], rng.choice((0, 2)), 0, 0)] * rng.randint(0, 2))
+            return [main] + bodies
+        return gen_core_prog(rng, maxb=10, flagset=(0, 0, F_DETACH, F_PF, F_DETACH | F_PF, F_NULLID | F_DETACH),
+                             reap=('JN', 'TJ', 'TJ', 'DT', 'DT', 'TJN'))
+    std_check(ctx, [('MC_Core', 'MC_Core_small.cfg'), ('MC_Core', 'MC_Core_reap.cfg')], gen,
               30, 6,
               [('reaped_twice', mut_first(ev('DescFree'), lambda evs, i: evs[:i + 1] + [evs[i]] + evs[i + 1:])),
                ('tryjoin_busy_although_finished', mut_first(lambda e: e['e'] == 'TryJoinChk' and e['a'][2] == 1, set_arg(2, 0))),
